@@ -14,8 +14,18 @@ import (
 	"fmt"
 	"math/rand"
 	"os"
+	"os/exec"
+	"path/filepath"
+	"strconv"
 	"strings"
 	"sync"
+	"time"
+
+	"github.com/hydraide/hydraide/app/core/hydra/swamp"
+	"github.com/hydraide/hydraide/app/core/hydra/swamp/beacon"
+	"github.com/hydraide/hydraide/app/core/hydra/swamp/chronicler"
+	"github.com/hydraide/hydraide/app/core/hydra/swamp/metadata"
+	"github.com/hydraide/hydraide/app/name"
 )
 
 func init() {
@@ -39,8 +49,9 @@ func c25Base(rng *rand.Rand, chron string) (pre, post []string) {
 		}
 		return "w " + strings.Join(items, ",")
 	}
-	pre = []string{chron, "live 1000000", batch(), "sync", batch(), "sync", batch(), "sync"}
-	post = []string{batch(), "sync", batch(), "sync", "close", chron, "load"}
+	// probes: what a reader would see at that moment, fault or not (readability DURING the fault)
+	pre = []string{chron, "live 1000000", batch(), "sync", batch(), "sync", "probe", batch(), "sync", "probe"}
+	post = []string{batch(), "sync", "probe", batch(), "sync", "probe", "close", chron, "load"}
 	return
 }
 
@@ -52,6 +63,8 @@ func c25Gen(rng *rand.Rand, tier string, w *bufio.Writer) {
 	id := 0
 	c25CompactCases(rng, &id, w, 8)
 	c25OutageCases(rng, tier, &id, w)
+	c25SwampCases(rng, tier, &id, w)
+	c25CloseRetryCases(rng, tier, &id, w)
 	for b := 0; b < nBase; b++ {
 		chron := fmt.Sprintf("chron cfg %d 0.3", c02Pick(rng, 450, 900, 16384))
 		if b%2 == 1 {
@@ -100,6 +113,7 @@ func c25Gen(rng *rand.Rand, tier string, w *bufio.Writer) {
 			fmt.Fprintf(w, "fsizeplus %d\n", k)
 			fmt.Fprintln(w, post[0])
 			fmt.Fprintln(w, post[1])
+			fmt.Fprintln(w, "probe") // the disk is still full
 			fmt.Fprintln(w, "fsize 0")
 			for _, l := range post[2:] {
 				fmt.Fprintln(w, l)
@@ -128,7 +142,7 @@ func c25OutageCases(rng *rand.Rand, tier string, id *int, w *bufio.Writer) {
 	over := 65535 + 1 + rng.Intn(40)
 	emit(fmt.Sprintf("outage %d", over), []string{big, "live 1000000",
 		"w p:1:1,p:2:2", "sync",
-		"fsizeplus 0", fmt.Sprintf("w p:3:3*%d", over), "sync", "fsize 0",
+		"fsizeplus 0", fmt.Sprintf("w p:3:3*%d,p:3:8,p:3:9", over-2), "sync", "fsize 0",
 		"w p:4:4", "sync", "close", big, "load"})
 	if tier != "thorough" {
 		return
@@ -139,13 +153,13 @@ func c25OutageCases(rng *rand.Rand, tier string, id *int, w *bufio.Writer) {
 	for _, n := range []int{65534, 65535, 65536, 65535 + 45} {
 		emit(fmt.Sprintf("outage %d", n), []string{big, "live 1000000",
 			"w p:1:1,p:2:2", "sync",
-			"fsizeplus 0", fmt.Sprintf("w p:3:3*%d,d:1", n-31), "sync", "w p:5:5*30", "sync", "fsize 0",
+			"fsizeplus 0", fmt.Sprintf("w p:3:3*%d,p:3:7,d:1", n-32), "sync", "w p:5:5*29,p:3:6", "sync", "fsize 0",
 			"w p:4:4", "sync", "close", big, "load"})
 	}
 	// two outages in a row, the second one while the first backlog is only partly written (short write)
 	emit("outage twice", []string{big, "live 1000000",
 		"w p:1:1,p:2:2", "sync",
-		"fsizeplus 0", "w p:3:3*65560", "sync", "fsizeplus 100", "w p:6:6", "sync", "fsize 0",
+		"fsizeplus 0", "w p:3:3*65559,p:3:7", "sync", "fsizeplus 100", "w p:6:6,p:3:8", "sync", "fsize 0",
 		"w p:4:4", "sync", "close", big, "load"})
 	// the default block size: every WriteEntry past the size bound retries the flush (and re-encodes
 	// the whole backlog each time — quadratic in the real code, so this one stays far below the bound)
@@ -192,7 +206,12 @@ func c25Trace(in *bufio.Scanner, w *bufio.Writer) {
 	outs := make([]c02CaseOut, len(cases))
 	var wg sync.WaitGroup
 	sem := make(chan struct{}, 12)
+	var swampCases []c02CaseIn
 	for i, c := range cases {
+		if strings.HasPrefix(c.Title, "swamp ") {
+			swampCases = append(swampCases, c)
+			continue
+		}
 		wg.Add(1)
 		go func(i int, c c02CaseIn) {
 			defer wg.Done()
@@ -230,5 +249,213 @@ func c25Trace(in *bufio.Scanner, w *bufio.Writer) {
 			continue
 		}
 		c02EmitCase(w, co, nil, false, false)
+	}
+	for _, c := range swampCases {
+		c25EmitSwamp(w, c)
+	}
+}
+
+// ---------------------------------------------------------------- a real swamp under faults
+//
+// The chronicler rig calls DontSendFilePointer, so it cannot see what the swamp does with the
+// file-pointer events: a treasure without a pointer is "not on disk" for the swamp, and deleting it
+// writes no tombstone.  These scenarios drive a real swamp (pointer events on, the write tick called
+// by hand) in an untraced worker process; RLIMIT_FSIZE is the fault.  Oracle: the key/value Spec.
+
+type c25Swamp struct {
+	sw   swamp.Swamp
+	name name.Name
+}
+
+func (r *c25Swamp) cmd(dir string, f []string) string {
+	base := filepath.Join(dir, "sw")
+	switch f[0] {
+	case "swamp":
+		r.name = name.New().Sanctuary("hx").Realm("c25").Swamp("real")
+		ch := chronicler.NewV2WithName(base, 2, r.name.Get())
+		ch.CreateDirectoryIfNotExists()
+		meta := metadata.NewNoop()
+		meta.SetSwampName(r.name)
+		fss := &swamp.FilesystemSettings{ChroniclerInterface: ch, WriteInterval: time.Hour}
+		r.sw = swamp.New(r.name, time.Hour, fss, func(*swamp.Event) {}, func(*swamp.Info) {}, func(name.Name) {}, meta)
+		r.sw.BeginVigil()
+	case "ssave":
+		k, _ := strconv.Atoi(f[1])
+		v, _ := strconv.Atoi(f[2])
+		pad := 0
+		if len(f) > 3 {
+			pad, _ = strconv.Atoi(f[3])
+		}
+		tr := r.sw.CreateTreasure(c02KeyName(k))
+		if tr == nil {
+			return "err create"
+		}
+		g := tr.StartTreasureGuard(true)
+		tr.SetContentString(g, c02Content(v, pad))
+		_ = tr.Save(g)
+		tr.ReleaseTreasureGuard(g)
+	case "sdel":
+		k, _ := strconv.Atoi(f[1])
+		if err := r.sw.DeleteTreasure(c02KeyName(k), false); err != nil {
+			return "err " + err.Error()
+		}
+	case "stick":
+		r.sw.WriteTreasuresToFilesystem()
+	case "sclose":
+		r.sw.CeaseVigil()
+		r.sw.Close()
+	case "sload":
+		ch := chronicler.NewV2WithName(base, 2, r.name.Get())
+		b := beacon.New()
+		ch.Load(b)
+		return "ok " + c02BeaconState(b)
+	}
+	return "ok"
+}
+
+// c25RunPlain runs a worker script without strace and returns the result of every command.
+func c25RunPlain(cmds []string) ([]string, error) {
+	tmp, err := os.MkdirTemp(c02TmpRoot(), "hxswamp-")
+	if err != nil {
+		return nil, err
+	}
+	defer os.RemoveAll(tmp)
+	script := append([]string{"dir " + filepath.Join(tmp, "d")}, cmds...)
+	sp, rp := filepath.Join(tmp, "script"), filepath.Join(tmp, "results")
+	if err := os.WriteFile(sp, []byte(strings.Join(script, "\n")+"\n"), 0o644); err != nil {
+		return nil, err
+	}
+	self, _ := os.Executable()
+	cmd := exec.Command(self)
+	cmd.Env = append(os.Environ(), "HX_STOR_WORKER="+sp, "HX_STOR_RESULTS="+rp)
+	runErr := cmd.Run()
+	b, _ := os.ReadFile(rp)
+	var out []string
+	for _, l := range strings.Split(string(b), "\n") {
+		if p := strings.SplitN(l, " ", 3); len(p) == 3 && p[0] == "r" {
+			out = append(out, p[2])
+		}
+	}
+	if len(out) < len(script) {
+		return nil, fmt.Errorf("swamp worker: %v (%d of %d results)", runErr, len(out), len(script))
+	}
+	return out[1:], nil
+}
+
+// big enough for one treasure to exceed the 16 KiB block: WriteEntry flushes at once
+const c25BigPad = 20000
+
+func c25SwampCases(rng *rand.Rand, tier string, id *int, w *bufio.Writer) {
+	emit := func(title string, lines []string) {
+		fmt.Fprintf(w, "case %d swamp %s\n", *id, title)
+		for _, l := range lines {
+			fmt.Fprintln(w, l)
+		}
+		*id++
+	}
+	// a Set whose block cannot be written (disk full), the fault clears, the record is deleted
+	emit("delete-after-failed-flush", []string{"swamp", "ssave 1 1", "stick",
+		"fsizeplus 0", fmt.Sprintf("ssave 2 2 %d", c25BigPad), "stick", "fsize 0",
+		"ssave 3 3", "stick", "sdel 2", "stick", "sclose", "sload"})
+	// the same with an update in place of the delete, and with small records (buffered, flushed by the tick's Sync)
+	emit("update-after-failed-flush", []string{"swamp", "ssave 1 1", "stick",
+		"fsizeplus 0", fmt.Sprintf("ssave 2 2 %d", c25BigPad), "stick", "fsize 0",
+		fmt.Sprintf("ssave 2 5 %d", c25BigPad), "stick", "ssave 3 3", "stick", "sclose", "sload"})
+	emit("delete-after-failed-sync", []string{"swamp", "ssave 1 1", "stick",
+		"fsizeplus 0", "ssave 2 2", "ssave 4 4", "stick", "fsize 0",
+		"sdel 2", "stick", "ssave 3 3", "stick", "sclose", "sload"})
+	n := 3
+	if tier == "thorough" {
+		n = 30
+	}
+	for i := 0; i < n; i++ {
+		lines := []string{"swamp", "ssave 1 1", "stick"}
+		live := map[int]bool{1: true}
+		val := 10
+		for step := 0; step < 4+rng.Intn(5); step++ {
+			k := 1 + rng.Intn(4)
+			fault := rng.Intn(3) == 0
+			if fault {
+				lines = append(lines, fmt.Sprintf("fsizeplus %d", c02Pick(rng, 0, 0, 17, 300)))
+			}
+			// (a swamp that loses its last treasure destroys itself: keep one alive)
+			if live[k] && len(live) >= 2 && rng.Intn(2) == 0 {
+				lines = append(lines, fmt.Sprintf("sdel %d", k))
+				delete(live, k)
+			} else {
+				val++
+				pad := 10
+				if rng.Intn(2) == 0 {
+					pad = c25BigPad
+				}
+				lines = append(lines, fmt.Sprintf("ssave %d %d %d", k, val, pad))
+				live[k] = true
+			}
+			lines = append(lines, "stick")
+			if fault {
+				lines = append(lines, "fsize 0", "stick")
+			}
+		}
+		lines = append(lines, "stick", "sclose", "sload")
+		emit("random", lines)
+	}
+}
+
+func c25EmitSwamp(w *bufio.Writer, c c02CaseIn) {
+	res, err := c25RunPlain(c.Cmds)
+	if err != nil {
+		fmt.Fprintln(os.Stderr, "C25T swamp:", c.ID, err)
+		return
+	}
+	fmt.Fprintf(w, "case %s %s\n", c.ID, c.Title)
+	for i, cmd := range c.Cmds {
+		f := strings.Fields(cmd)
+		switch f[0] {
+		case "swamp":
+			fmt.Fprintln(w, "sw new")
+		case "ssave":
+			fmt.Fprintf(w, "sw save %s %s\n", f[1], f[2])
+		case "sdel":
+			fmt.Fprintf(w, "sw del %s\n", f[1])
+		case "stick":
+			fmt.Fprintln(w, "sw tick")
+		case "sclose":
+			fmt.Fprintln(w, "sw close")
+		case "sload":
+			st := "-"
+			if p := strings.Fields(res[i]); len(p) > 1 {
+				st = p[1]
+			}
+			fmt.Fprintln(w, "sw load "+st)
+		default:
+			fmt.Fprintln(w, "sw "+strings.Join(f, "-"))
+		}
+	}
+	fmt.Fprintln(w, "end")
+}
+
+// a Close that fails, and the SAME chronicler goes on (the swamp is not evicted; or the Close was the
+// one runCompactionLocked starts): the fault clears, more is written, Sync, Close, a fresh Load.
+func c25CloseRetryCases(rng *rand.Rand, tier string, id *int, w *bufio.Writer) {
+	emit := func(title string, lines []string) {
+		fmt.Fprintf(w, "case %d %s\n", *id, title)
+		for _, l := range lines {
+			fmt.Fprintln(w, l)
+		}
+		*id++
+	}
+	ks := []int{0, 17, 100}
+	if tier == "thorough" {
+		ks = []int{0, 1, 15, 16, 17, 100, 400}
+	}
+	for _, k := range ks {
+		for _, op := range []string{"close", "force"} {
+			h := &c03Hist{rng: rng}
+			chron := fmt.Sprintf("chron cfg %d 1.0", c02Pick(rng, 900, 16384))
+			emit(fmt.Sprintf("closeretry %s %d", op, k), []string{chron, "live 1000000",
+				"w " + h.put(1) + "," + h.put(2), "sync",
+				"w " + h.put(3) + "," + h.put(1), fmt.Sprintf("fsizeplus %d", k), op, "fsize 0",
+				"w " + h.put(4), "sync", "w " + h.put(2), "close", chron, "load"})
+		}
 	}
 }
